@@ -6,7 +6,7 @@ import FlVerif.Op.AntecedentLoad
 namespace Op
 open Lang
 
-/-- a loaded tree over the engine -/
+/-- a loaded tree over the engine (every variable is found by `findVar`: it exists and has at least one term) -/
 def ANode.WF (e : EngineInfo) : ANode → Prop
   | .prop v hs t => (e.findVar v).isSome = true ∧ (∀ h ∈ hs, e.hedges.contains h = true) ∧
       ((∃ t', t = some t' ∧ (((e.findVar v).map (·.terms)).getD []).contains t' = true) ∨
